@@ -1,5 +1,6 @@
 import PyomaVerif.Model.BuildHank
 import PyomaVerif.Lemmas.Sum
+import PyomaVerif.Props.C12
 import Mathlib.Tactic.Ring
 import Mathlib.Tactic.FieldSimp
 import Mathlib.Algebra.Field.Basic
@@ -194,4 +195,219 @@ theorem C17_unc_only_cov_mm (rs : Int → K) (sT : K) (qr : Mat K → Mat K) (Y 
       · rw [if_neg h3] at h; simp at h
 
 end core
+
+theorem vstackChk_ok (n h : Nat) (blk : Nat → Mat K) (M : Mat K) (hM : vstackChk n h blk = .ok M) :
+    M = vstackN n h (blk 0).c blk := by
+  unfold vstackChk at hM
+  split_ifs at hM
+  simp only [Except.ok.injEq] at hM
+  exact hM.symm
+
+section field
+variable [Field K]
+
+/-- **Correlation method: the weight is `1/(Ndat − k)` and the record needs `Ndat ≥ 2br+1` samples.**
+    `build_hank(Y, Yref, br, "cov_R")` raises `ZeroDivisionError` exactly for `Ndat ≤ 2br` … -/
+theorem C12_R_zeroDiv_iff (rs : Int → K) (sT : K) (qr : Mat K → Mat K) (Y Yref : Mat K) (br nb : Nat) :
+    buildHank rs sT qr Y Yref br "cov_R" .off nb = .error .zeroDiv ↔ Y.c ≤ 2 * br := by
+  unfold buildHank
+  simp only [ne_eq, not_true_eq_false, false_and, if_false, show ("cov_R" : String) ≠ "cov_mm" by decide, if_true]
+  by_cases h : Y.c ≤ 2 * br
+  · have : (List.range (br + (br + 1))).any (fun k => Y.c - k == 0) = true := by
+      rw [List.any_eq_true]; exact ⟨Y.c, by simp; omega, by simp⟩
+    simp [this, h]
+  · have : (List.range (br + (br + 1))).any (fun k => Y.c - k == 0) = false := by
+      rw [List.any_eq_false]; intro k hk; simp at hk ⊢; omega
+    simp [this, h, pure, Except.pure]
+
+/-- … and for every longer record returns `(Hank, None)`, real, of shape `(br+1)·l × (br+1)·r`, whose entry
+    (block row `i`, channel `a`; block column `j`, reference `b`) is
+    `1/(Ndat − k) · Σ_{t < Ndat−k} Y[a,t]·Yref[b,t+k]`, `k = br + i − j` — with the weight the code computes. -/
+theorem C12_R_entry_N (rs : Int → K) (sT : K) (qr : Mat K → Mat K) (Y Yref : Mat K) (br nb : Nat)
+    (hN : 2 * br + 1 ≤ Y.c) :
+    ∃ o, buildHank rs sT qr Y Yref br "cov_R" .off nb = .ok o ∧ o.cplx = false ∧
+      o.hank.r = (br + 1) * Y.r ∧ o.hank.c = (br + 1) * Yref.r ∧
+      ∀ i a j b, a < Y.r → b < Yref.r →
+        o.hank.e (i * Y.r + a) (j * Yref.r + b)
+          = 1 / ((Y.c - (br + i - j) : ℕ) : K) * ∑ t ∈ range (Y.c - (br + i - j)),
+              Y.e a t * Yref.e b (br + i - j + t) := by
+  have hany : (List.range (br + (br + 1))).any (fun k => Y.c - k == 0) = false := by
+    rw [List.any_eq_false]; intro k hk; simp at hk ⊢; omega
+  refine ⟨⟨hankR Y Yref br (fun k => ((1 : Nat) : K) / ((Y.c - k : Nat) : K)), false, .none⟩, ?_, rfl, ?_, ?_, ?_⟩
+  · unfold buildHank
+    simp [hany, pure, Except.pure]
+  · exact (C12_shape_R Y Yref br _).1
+  · exact (C12_shape_R Y Yref br _).2
+  · intro i a j b ha hb
+    rw [C12_R_entry Y Yref br _ i a j b ha hb]
+    simp
+
+/-- the two stacked matrices for a record with `N = Ndat − 2br − 1 ≥ 1`: no slice is clipped, no exception -/
+theorem hankStacks_long (rs : Int → K) (Y Yref : Mat K) (p : Nat) (hN : 2 * p + 2 ≤ Y.c) (hc : Yref.c = Y.c) :
+    ∃ Yf Yp, hankStacks rs Y Yref p = .ok (Yf, Yp) ∧
+      Yf.r = (p + 1) * Y.r ∧ Yp.r = (p + 1) * Yref.r ∧ Yf.c = Y.c - 2 * p - 2 ∧ Yp.c = Y.c - 2 * p - 2 ∧
+      (∀ i a t, i ≤ p → a < Y.r → Yf.e (i * Y.r + a) t = rs ((Y.c - 2 * p - 1 : ℕ) : ℤ) * Y.e a (p + 2 + i + t)) ∧
+      (∀ j b t, j ≤ p → b < Yref.r → Yp.e (j * Yref.r + b) t = rs ((Y.c - 2 * p - 1 : ℕ) : ℤ) * Yref.e b (p + 1 - j + t)) := by
+  have hNeq : ((Y.c : ℤ) - p - ((p : ℤ) + 1)) = ((Y.c - 2 * p - 1 : ℕ) : ℤ) := by omega
+  have hN0 : ((Y.c : ℤ) - p - ((p : ℤ) + 1)) ≠ 0 := by omega
+  have hf : (List.range (p + 1)).all (fun i =>
+      (scale (rs ((Y.c : ℤ) - p - ((p : ℤ) + 1))) (colSlicePy Y ((p : ℤ) + 1 + 1 + i) ((Y.c : ℤ) - p - ((p : ℤ) + 1) + ((p : ℤ) + 1) + i))).c ==
+      (scale (rs ((Y.c : ℤ) - p - ((p : ℤ) + 1))) (colSlicePy Y ((p : ℤ) + 1 + 1 + (0 : ℕ)) ((Y.c : ℤ) - p - ((p : ℤ) + 1) + ((p : ℤ) + 1) + (0 : ℕ)))).c) = true := by
+    rw [List.all_eq_true]; intro i hi
+    simp only [List.mem_range] at hi
+    simp only [scale, colSlicePy, pyIdx, beq_iff_eq]
+    split_ifs <;> omega
+  have hp : (List.range (p + 1)).all (fun j =>
+      (scale (rs ((Y.c : ℤ) - p - ((p : ℤ) + 1))) (colSlicePy Yref ((p : ℤ) + 1 - j) ((Y.c : ℤ) - p - ((p : ℤ) + 1) + ((p : ℤ) + 1) - 1 - j))).c ==
+      (scale (rs ((Y.c : ℤ) - p - ((p : ℤ) + 1))) (colSlicePy Yref ((p : ℤ) + 1 - (0 : ℕ)) ((Y.c : ℤ) - p - ((p : ℤ) + 1) + ((p : ℤ) + 1) - 1 - (0 : ℕ)))).c) = true := by
+    rw [List.all_eq_true]; intro j hj
+    simp only [List.mem_range] at hj
+    simp only [scale, colSlicePy, pyIdx, beq_iff_eq, hc]
+    split_ifs <;> omega
+  unfold hankStacks vstackChk
+  simp only [hN0, if_false, hf, hp, if_true, bind, Except.bind, pure, Except.pure]
+  refine ⟨_, _, rfl, ?_⟩
+  · refine ⟨by simp [vstackN, scale, colSlicePy], by simp [vstackN, scale, colSlicePy], ?_, ?_, ?_, ?_⟩
+    · simp only [vstackN, scale, colSlicePy, pyIdx]; split_ifs <;> omega
+    · simp only [vstackN, scale, colSlicePy, pyIdx, hc]; split_ifs <;> omega
+    · intro i a t hi ha
+      simp only [vstackN, scale, colSlicePy, blk_div i ha, blk_mod i ha, hNeq]
+      congr 2
+      simp only [pyIdx]; split_ifs <;> omega
+    · intro j b t hj hb
+      simp only [vstackN, scale, colSlicePy, blk_div j hb, blk_mod j hb, hNeq]
+      congr 2
+      simp only [pyIdx, hc]; split_ifs <;> omega
+
+/-- whenever the `cov_mm` branch returns, `Hank = np.dot(Yf, Yp.T)` of the two stacks -/
+theorem buildHank_mm_hank (rs : Int → K) (sT : K) (qr : Mat K → Mat K) (Y Yref : Mat K) (br : Nat)
+    (cu : UncFlag) (nb : Nat) (o : HankOut K) (Yf Yp : Mat K)
+    (hs : hankStacks rs Y Yref br = .ok (Yf, Yp))
+    (h : buildHank rs sT qr Y Yref br "cov_mm" cu nb = .ok o) :
+    o.hank = mulT Yf Yp ∧ o.cplx = decide ((Y.c : ℤ) - br - ((br : ℤ) + 1) < 0) := by
+  unfold buildHank at h
+  simp only [ne_eq, not_true_eq_false, and_false, if_false, if_true] at h
+  rw [hs] at h
+  obtain ⟨⟨Yf', Yp'⟩, hEq, hf⟩ := bind_ok _ _ _ h
+  simp only [Except.ok.injEq, Prod.mk.injEq] at hEq
+  obtain ⟨rfl, rfl⟩ := hEq
+  simp only at hf
+  by_cases h4 : Yf.c ≠ Yp.c
+  · rw [if_pos h4] at hf; simp at hf
+  rw [if_neg h4] at hf
+  by_cases h5 : cu = .on
+  · rw [if_pos h5] at hf
+    obtain ⟨T, -, hp⟩ := bind_ok _ _ _ hf
+    simp only [pure, Except.pure, Except.ok.injEq] at hp
+    subst hp; exact ⟨rfl, by simp⟩
+  · rw [if_neg h5] at hf
+    simp only [pure, Except.pure, Except.ok.injEq] at hf
+    subst hf; exact ⟨rfl, by simp⟩
+
+/-- **Moment-matrix method: the weight is `1/N`, `N = Ndat − 2br − 1`.**  For a record with `N ≥ 1`
+    (`Ndat ≥ 2br + 2`) and the square-root contract `(1/N**0.5)² = 1/N` on the value the code computes, whatever
+    `build_hank(Y, Yref, br, "cov_mm", calc_unc, nb)` returns has a REAL Hankel matrix of shape
+    `(br+1)·l × (br+1)·r` whose entry (block `i`, channel `a`; block `j`, reference `b`) is
+    `1/N · Σ_{t < N−1} Y[a, br+2+i+t] · Yref[b, br+1−j+t]`.  (`hc`: both arrays have the same number of samples —
+    the callers pass `Yref = Y[ref_ind, :]`.) -/
+theorem C12_mm_entry_N (rs : Int → K) (sT : K) (qr : Mat K → Mat K) (Y Yref : Mat K) (br : Nat)
+    (cu : UncFlag) (nb : Nat) (hN : 2 * br + 2 ≤ Y.c) (hc : Yref.c = Y.c)
+    (hrs : rs ((Y.c - 2 * br - 1 : ℕ) : ℤ) * rs ((Y.c - 2 * br - 1 : ℕ) : ℤ) = 1 / ((Y.c - 2 * br - 1 : ℕ) : K))
+    (o : HankOut K) (h : buildHank rs sT qr Y Yref br "cov_mm" cu nb = .ok o) :
+    o.cplx = false ∧ o.hank.r = (br + 1) * Y.r ∧ o.hank.c = (br + 1) * Yref.r ∧
+      ∀ i a j b, i ≤ br → a < Y.r → j ≤ br → b < Yref.r →
+        o.hank.e (i * Y.r + a) (j * Yref.r + b)
+          = 1 / ((Y.c - 2 * br - 1 : ℕ) : K) * ∑ t ∈ range (Y.c - 2 * br - 2),
+              Y.e a (br + 2 + i + t) * Yref.e b (br + 1 - j + t) := by
+  obtain ⟨Yf, Yp, hs, hfr, hpr, hfc, hpc, hfe, hpe⟩ := hankStacks_long rs Y Yref br hN hc
+  obtain ⟨hH, hC⟩ := buildHank_mm_hank rs sT qr Y Yref br cu nb o Yf Yp hs h
+  refine ⟨?_, ?_, ?_, ?_⟩
+  · rw [hC]; simp only [decide_eq_false_iff_not]; omega
+  · rw [hH]; exact hfr
+  · rw [hH]; exact hpr
+  · intro i a j b hi ha hj hb
+    rw [hH]
+    simp only [mulT, sumTo_eq, hfc]
+    rw [← hrs, Finset.mul_sum]
+    apply Finset.sum_congr rfl
+    intro t _
+    rw [hfe i a t hi ha, hpe j b t hj hb]; ring
+
+/-- … and it does return (`(Hank, None)`) whenever `calc_unc` is not `True`. -/
+theorem C12_mm_returns (rs : Int → K) (sT : K) (qr : Mat K → Mat K) (Y Yref : Mat K) (br : Nat)
+    (cu : UncFlag) (nb : Nat) (hN : 2 * br + 2 ≤ Y.c) (hc : Yref.c = Y.c) (hcu : cu ≠ .on) :
+    ∃ o, buildHank rs sT qr Y Yref br "cov_mm" cu nb = .ok o ∧ o.T = .none := by
+  obtain ⟨Yf, Yp, hs, -, -, hfc, hpc, -, -⟩ := hankStacks_long rs Y Yref br hN hc
+  unfold buildHank
+  simp only [ne_eq, not_true_eq_false, and_false, if_false, if_true, hs, bind, Except.bind]
+  rw [if_neg (by rw [hfc, hpc]; simp), if_neg hcu]
+  exact ⟨_, rfl, rfl⟩
+
+/-- **Too-short records, `N = 0`** (`Ndat = 2br + 1`): `1 / N**0.5` raises `ZeroDivisionError` in the moment-matrix
+    and in the data-driven method (whatever `calc_unc`, `nb`). -/
+theorem C12_short_zeroDiv (rs : Int → K) (sT : K) (qr : Mat K → Mat K) (Y Yref : Mat K) (br : Nat)
+    (cu : UncFlag) (nb : Nat) (hN : Y.c = 2 * br + 1) :
+    buildHank rs sT qr Y Yref br "cov_mm" cu nb = .error .zeroDiv ∧
+    buildHank rs sT qr Y Yref br "dat" .off nb = .error .zeroDiv := by
+  have hs : hankStacks rs Y Yref br = .error .zeroDiv := by
+    unfold hankStacks
+    rw [if_pos (by omega)]
+  constructor
+  · unfold buildHank
+    simp [hs, bind, Except.bind]
+  · unfold buildHank
+    simp [hs, bind, Except.bind]
+
+/-- **The factor `build_hank` returns is the one the C17 theorems are about.**  If
+    `build_hank(Y, Yref, br, "cov_mm", True, nb)` returns `(Hank, T)` with a finite `T`, then `Hank = Yf·Ypᵀ` and
+    `T = covFactor Yf Yp nb N sT` for the two stacks the function itself formed and ITS `N = Ndat − 2br − 1`
+    (so `C17_factor_entry`, `C17_factor_gram`, `C17_table_variance` … apply to the returned pair). -/
+theorem C17_build_factor (rs : Int → K) (sT : K) (qr : Mat K → Mat K) (Y Yref : Mat K) (br nb : Nat)
+    (o : HankOut K) (T : Mat K)
+    (h : buildHank rs sT qr Y Yref br "cov_mm" .on nb = .ok o) (hT : o.T = .factor T) :
+    ∃ Yf Yp, hankStacks rs Y Yref br = .ok (Yf, Yp) ∧ o.hank = mulT Yf Yp ∧
+      covFactor Yf Yp nb ((Y.c : ℤ) - br - ((br : ℤ) + 1)).toNat sT = .ok T := by
+  unfold buildHank at h
+  simp only [ne_eq, not_true_eq_false, and_false, if_false, if_true] at h
+  obtain ⟨⟨Yf, Yp⟩, hs, hf⟩ := bind_ok _ _ _ h
+  simp only at hf
+  by_cases h4 : Yf.c ≠ Yp.c
+  · rw [if_pos h4] at hf; simp at hf
+  rw [if_neg h4] at hf
+  obtain ⟨U, hu, hp⟩ := bind_ok _ _ _ hf
+  simp only [pure, Except.pure, Except.ok.injEq] at hp
+  subst hp
+  simp only at hT
+  subst hT
+  refine ⟨Yf, Yp, hs, rfl, ?_⟩
+  unfold hankUnc at hu
+  split_ifs at hu
+  split at hu
+  · simp at hu
+  · simp at hu
+  · rename_i T' heq
+    simp only [Except.ok.injEq, UncOut.factor.injEq] at hu
+    subst hu
+    simpa using heq
+
+/-! ### Non-vacuity: 2 channels, 1 reference, `br = 1`, 7 samples (`N = 4`, `1/N**0.5 = 1/2` exactly). -/
+def exB : Mat ℚ := ⟨2, 7, fun i t => if i = 0 then (t : ℚ) * t else 1 - (t : ℚ)⟩
+def exBr : Mat ℚ := ⟨1, 7, fun _ t => (t : ℚ) * t⟩
+def exRs : ℤ → ℚ := fun n => if n = 4 then 1 / 2 else 0
+
+example : (2 * 1 + 2 ≤ exB.c) ∧ exBr.c = exB.c ∧
+    exRs ((exB.c - 2 * 1 - 1 : ℕ) : ℤ) * exRs ((exB.c - 2 * 1 - 1 : ℕ) : ℤ) = 1 / ((exB.c - 2 * 1 - 1 : ℕ) : ℚ) ∧
+    ∃ o, buildHank exRs 1 id exB exBr 1 "cov_mm" .off 3 = .ok o := by
+  refine ⟨by decide, rfl, by norm_num [exRs, exB], ?_⟩
+  exact C12_mm_returns exRs 1 id exB exBr 1 .off 3 (by decide) rfl (by decide) |>.imp fun _ h => h.1
+
+example : ∃ o, buildHank exRs 1 id exB exBr 1 "cov_R" .off 3 = .ok o :=
+  (C12_R_entry_N exRs 1 id exB exBr 1 3 (by decide)).imp fun _ h => h.1
+
+/-- hypotheses of `C17_build_factor` / `C17_unc_only_cov_mm` hold on the example (`nb = 2`, two samples per block) -/
+example : ∃ o T, buildHank exRs 1 id exB exBr 1 "cov_mm" .on 2 = .ok o ∧ o.T = .factor T := ⟨_, _, rfl, rfl⟩
+example : buildHank exRs 1 id exB exBr 1 "dat" .on 2 = .error .attrUnc := rfl
+example : buildHank exRs 1 id exB exBr 1 "cov" .off 2 = .error .attrMethod := rfl
+
+end field
 end PV.C12
